@@ -15,13 +15,15 @@ RULE = ('2-4 contenders (threads sharing one Cache, threads with their own Cache
         'section / release loops with Lock, RLock (nesting depth 1-3), BoundedSemaphore(1..3) and barrier-wrapped '
         'functions under the schedule fuzzer; an independent witness (os.mkdir/rmdir of a witness directory plus '
         'enter/exit stamps strictly inside the hold period) counts concurrent holders; refusal of foreign/excess '
-        'releases and bounded progress of waiters are asserted; free-running OS processes repeat the witness check with '
+        'releases and bounded progress of waiters are asserted; in barrier schedules (Lock or BoundedSemaphore factory) '
+        'failpoints make a statement of a contender that is still waiting raise, after which the holder must still be '
+        'alone; free-running OS processes repeat the witness check with '
         'CLOCK_MONOTONIC stamps. evaluations = schedules and process runs judged; distinct_nontrivial = distinct '
         'schedules in which a contender was preempted while holding')
 DISTINCT = ('schedules_preempted_while_holding', 'process_runs')
 REQUIRED = ('schedules_lock', 'schedules_rlock', 'schedules_semaphore', 'schedules_barrier', 'critical_sections',
             'contended_acquires', 'nested_acquires', 'refused_releases', 'process_runs_done', 'fanout_schedules',
-            'fork_runs_done')
+            'fork_runs_done', 'waiting_contenders_failed_by_injection')
 ASSUMPTIONS = ('witness intervals lie strictly inside the claimed hold period, so an overlap is a proof and clock '
                'granularity can only hide one', 'expire is not used on the locks (an expiring lock frees by design)')
 
@@ -46,6 +48,24 @@ def schedule(dc, sc, res, rng, label, kind):
     value = rng.randrange(1, 4) if kind == 'semaphore' else 1
     sch = Sched(rng, clock, strategy=rng.choice(['random', 'random', 'preempt']), max_steps=12000,
                 preempt_points={rng.randrange(0, 300) for _ in range(4)})
+    # failpoints: a contender that is still waiting to get in (somebody else is inside) fails with an exception at one of
+    # its gates; it must simply not get in - the holder's exclusion is not its to give away
+    inject = kind == 'barrier' and rng.random() < 0.6
+    factory = rng.choice([dc.Lock, dc.Lock, dc.BoundedSemaphore]) if kind == 'barrier' else None
+    budget = [rng.randrange(1, 4)]
+
+    class InjectedFault(Exception):
+        pass
+
+    def fault_hook(client, gate_label):
+        if getattr(client, 'phase', None) == 'acquire' and holders[0] > 0 and budget[0] > 0 \
+                and gate_label in ('pre:BEGIN', 'pre:SELECT', 'pre:INSERT', 'pre:UPDATE', 'pre:DELETE') \
+                and rng.random() < 0.3:            # (a statement fails; the COMMIT / ROLLBACK that ends the transaction does not)
+            budget[0] -= 1
+            return InjectedFault('injected at %s' % gate_label)
+        return None
+    if inject:
+        sch.fault_hook = fault_hook
     events = []          # (stamp, +1/-1, contender)
     holders = [0]
     peak = [0]
@@ -64,6 +84,7 @@ def schedule(dc, sc, res, rng, label, kind):
         me = sch._me()
         if me is not None:
             me.holding = True
+            me.phase = 'inside'
         holders[0] += 1
         peak[0] = max(peak[0], holders[0])
         if holders[0] > value:
@@ -87,6 +108,7 @@ def schedule(dc, sc, res, rng, label, kind):
         state['last_exit_step'] = sch.steps
         if me is not None:
             me.holding = False
+            me.phase = 'release'
 
     def contender(ci):
         def run():
@@ -95,10 +117,17 @@ def schedule(dc, sc, res, rng, label, kind):
             me.holding = False
             for rnd in range(rng.randrange(2, 5)):
                 if kind == 'barrier':
-                    @dc.barrier(caches[ci], dc.Lock, name='the-lock')
+                    @dc.barrier(caches[ci], factory, name='the-lock')
                     def work():
                         critical(ci)
-                    work()
+                    me.phase = 'acquire'
+                    try:
+                        work()
+                    except InjectedFault:
+                        if me.phase != 'acquire':
+                            raise
+                        res.count('waiting_contenders_failed_by_injection')
+                    me.phase = 'idle'
                     continue
                 depth = rng.randrange(1, 4) if kind == 'rlock' else 1
                 for _ in range(depth):
